@@ -50,16 +50,23 @@ CHECKS["C11"] = {
     "text": "Proof (Verus, unbounded) that every state-changing method of the real naming::Service (update_instance incl. all of its branches, remove_instance, "
             "update_instance_healthy_invalid, update_perpetual_instance_healthy_valid, time_check) preserves wf: instance_size == |instances|, "
             "healthy_instance_size == |healthy instances|, perpetual_host_set == non-ephemeral keys, stored key == address; get_service_info reports exactly those counts. "
-            "Whole-map postconditions say which key changed and that every other entry is unchanged.",
-    "note": "Service level only: NamingActor (service index, client reverse map, empty-service cleanup) is NOT under contract in this revision; get_all_instances "
-            "(iterator adapters) not under contract; TimeoutSet and Addr are shims; A-KEY for InstanceShortKey.",
+            "Whole-map postconditions say which key changed and that every other entry is unchanged. "
+            "Naming actor (unit namingactor, real NamingActor::update_instance / remove_instance / remove_client_instance / remove_client_instance_key): the reverse map "
+            "client -> instance keys changes by exactly the rule — a gRPC / cluster-owned registration with a client id is recorded under that client, the owner the service "
+            "reports as replaced loses the key, a removed instance leaves the record of the client that OWNED it whoever asked for the removal, a closed connection loses its record; "
+            "every other service and record is unchanged and all services stay well formed.",
+    "note": "NOT under contract: the namespace/group service index (NamespaceIndex), empty-service cleanup (clear_one_empty_service) and create_empty_service (assumed: creates an "
+            "empty well-formed service) — chrono / NamingUtils / iterator adapters; the global invariant 'every recorded key names an instance of that client' is NOT claimed "
+            "(only each operation's exact effect on the record); get_all_instances not under contract; TimeoutSet and Addr are shims; A-KEY for the key types.",
 }
 CHECKS["C12"] = {
     "text": "Proof (Verus, unbounded), partial scope: Service::remove_instance never removes an ephemeral instance owned by another client and otherwise removes exactly "
             "the named key; Service::update_instance stores a new registration with the ip, port, ephemeral, enabled, weight, health and owner it was given and keeps the "
-            "gRPC owner when an HTTP re-registration hits a gRPC-owned ephemeral instance; every other entry unchanged.",
-    "note": "NOT decided: the query filters (get_all_instances, InstanceFilterUtils: iterator adapters + f32 protect threshold), NamingActor::remove_client_instance and the "
-            "gRPC/HTTP handlers. A defect there is not detected by this check.",
+            "gRPC owner when an HTTP re-registration hits a gRPC-owned ephemeral instance; every other entry unchanged. "
+            "Disconnect (real NamingActor::remove_client_instance, every record, every number of keys): no persistent instance and no instance of another client is removed or "
+            "changed, every ephemeral instance of the client that its record names is removed, nothing appears.",
+    "note": "NOT decided: the query filters (get_all_instances, InstanceFilterUtils: iterator adapters + f32 protect threshold) and the gRPC/HTTP handlers; that the record "
+            "names ALL ephemeral instances of the client is the global invariant not claimed under C11. The loop over the owned HashSet is iterated by reference (T8).",
 }
 CHECKS["C13"] = {
     "text": "Proof (Verus, unbounded) on the real Service::time_check / update_instance / update_instance_healthy_invalid / Instance::is_enable_timeout: persistent, gRPC "
